@@ -94,8 +94,13 @@ pub fn note_panic(info: &std::panic::PanicHookInfo<'_>) {
     } else {
         "<non-string panic payload>".to_string()
     };
-    let loc = info.location().map(|l| format!("{}:{}", l.file(), l.line())).unwrap_or_default();
-    if msg.starts_with("deadlock!") && loc.contains("shuttle-engine") {
+    let loc = info
+        .location()
+        .map(|l| format!("{}:{}", l.file(), l.line()))
+        .unwrap_or_default();
+    if msg.starts_with("deadlock!")
+        && (loc.contains("shuttle-engine") || loc.contains("shuttle-std"))
+    {
         // shuttle's verdict that no task can run while an attached task is
         // unfinished. The simulated process would sit there for ever; record
         // it and leave before any unwinding starts.
@@ -106,7 +111,12 @@ pub fn note_panic(info: &std::panic::PanicHookInfo<'_>) {
         if let Some(w) = g.as_mut() {
             let task = if w.in_execution { w.current } else { u32::MAX };
             let step = w.steps;
-            w.hist.panics.push(PanicEvent { task, msg, loc, step });
+            w.hist.panics.push(PanicEvent {
+                task,
+                msg,
+                loc,
+                step,
+            });
         }
     }
 }
@@ -132,7 +142,11 @@ pub fn finish(end: &str, exit: Option<i32>, detail: &str) -> ! {
             ("liveness", _) => 73,
             _ => 70,
         };
-        (w.history_path.clone(), serde_json::to_vec(&w.hist).expect("history json"), code)
+        (
+            w.history_path.clone(),
+            serde_json::to_vec(&w.hist).expect("history json"),
+            code,
+        )
     });
     if std::fs::write(&path, body).is_err() {
         unsafe { libc::_exit(79) }
@@ -263,7 +277,11 @@ pub unsafe extern "C" fn getentropy(buf: *mut u8, len: usize) -> c_int {
 
     if stop_reason() == Some("liveness") {
         // every response has been a match for a while and the searchers keep asking
-        finish("liveness", None, "entropy requests after the device turned generous");
+        finish(
+            "liveness",
+            None,
+            "entropy requests after the device turned generous",
+        );
     }
 
     // scheduling point after the buffer was filled and before the caller sees it
@@ -330,7 +348,12 @@ impl Scheduler for SimScheduler {
         }
     }
 
-    fn next_task(&mut self, runnable: &[&Task], current: Option<TaskId>, is_yielding: bool) -> Option<TaskId> {
+    fn next_task(
+        &mut self,
+        runnable: &[&Task],
+        current: Option<TaskId>,
+        is_yielding: bool,
+    ) -> Option<TaskId> {
         let ids: Vec<usize> = runnable.iter().map(|t| t.id().into()).collect();
         let cur: Option<usize> = current.map(|c| c.into());
         let cur_runnable = cur.map(|c| ids.contains(&c)).unwrap_or(false);
@@ -367,7 +390,8 @@ impl Scheduler for SimScheduler {
                 "random" => ids[self.rng.usize_below(ids.len())],
                 "sticky" => {
                     // a task that yields (spin/poll loop) is not kept running
-                    if cur_runnable && !is_yielding && self.rng.below(256) < self.spec.param as u64 {
+                    if cur_runnable && !is_yielding && self.rng.below(256) < self.spec.param as u64
+                    {
                         cur.unwrap()
                     } else {
                         ids[self.rng.usize_below(ids.len())]
